@@ -182,7 +182,7 @@ impl Harness for TcpEg {
 
 /// MTU sets: IPv4 {68 = protocol minimum, 69, 576, 1500}; IPv6 {1280 = protocol minimum, 1281, 1500}
 pub fn configs(tier: Tier) -> Vec<(Tcp2Cfg, u32)> {
-    let k = if tier == Tier::Quick { 1 } else { 2 };
+    let k = if tier == Tier::Quick { 2 } else { 3 };
     let mut v = vec![];
     let leak = |s: String| -> &'static str { Box::leak(s.into_boxed_str()) };
     for eth in [false, true] {
